@@ -7,15 +7,15 @@ def run(ctx):
     # 1. exhaustive model check of the representation-level spec (all reachable (size,r,w,isEmpty)),
     #    dumping the labelled state graph
     small = vlib.tlc_model_check(ctx, "MCRing", "Ring_small.cfg" if ctx.thorough else "Ring_quick.cfg", dump="g", timeout=900)
-    real = vlib.tlc_model_check(ctx, "MCRing", "Ring_real.cfg", dump="g", timeout=900)
+    real = vlib.tlc_model_check(ctx, "MCRing", "Ring_real5.cfg" if ctx.thorough else "Ring_real.cfg", dump="g", timeout=1800)
     # 2. replay every labelled edge on the real ring.Buffer
     rep = vlib.go_harness(ctx, "pkg/buffer/ring", "TestVerifRingCover", name="cover-small",
                           env={"VERIF_GRAPH": small["dot"], "VERIF_SCALE": 256}, timeout=900)
     vlib.absorb(ctx, rep, "cover-small")
     rep = vlib.go_harness(ctx, "pkg/buffer/ring", "TestVerifRingCover", name="cover-real",
-                          env={"VERIF_GRAPH": real["dot"], "VERIF_SCALE": 1}, timeout=900)
+                          env={"VERIF_GRAPH": real["dot"], "VERIF_SCALE": 1}, timeout=2400)
     vlib.absorb(ctx, rep, "cover-real")
     ctx.assumptions += ["TLC 1.8.0", "io.Reader/io.Writer behaviours are those of the scripted reader/writer alphabet (zero/one/full x nil/EOF/error)",
-                        "exhaustive configuration explores sizes in units of 256 bytes up to 6400 bytes; byte-granular boundary sizes by the real-constant configuration to depth 3"]
+                        "exhaustive configuration explores sizes in units of 256 bytes up to 6400 bytes; byte-granular boundary sizes by the real-constant configuration to depth 3 (quick) / 5 (thorough)"]
     return vlib.finish(ctx, "model_checking",
                        "one case = one labelled edge (state, operation, arguments/script) of the TLC state graph of Ring.tla, replayed on a real ring.Buffer after the BFS path to its source state; distinct = distinct (source state, label) pairs")
